@@ -223,13 +223,19 @@ def scenario_fit(rng, tmp, i):
     cdc = "R{R=100}(R{R=200}C{C=1e-6})(R{R=500}W{Y=1e-3})" if rng.random() < 0.5 else "R(RC)(RW)"
     method, weight = rng.choice(["leastsq", "least_squares"]), rng.choice(["boukamp", "modulus", "proportional"])
     running = rng.random() < 0.5
-    argv = ["fit", cdc, "<%s>" % spec, "--method", method, "--weight", weight, "--max-nfev", "200", "--num-procs", "1", "--output-format", "csv"] + (["--running-count"] if running else [])
+    # --num-refinements N re-fits N times, each time starting from the previously fitted circuit; a small --max-nfev leaves the first
+    # fit unconverged so that the refinements matter (every other scenario)
+    nref, nfev = ((1 + i % 2, 15) if i % 2 == 0 else (rng.choice([0, 1]), 200))
+    argv = (["fit", cdc, "<%s>" % spec, "--method", method, "--weight", weight, "--max-nfev", str(nfev), "--num-procs", "1", "--output-format", "csv"]
+            + (["--running-count"] if running else []) + (["--num-refinements", str(nref)] if nref else []))
     out, err = run_cli(argv)
     desc = dict(command=argv)
     if err:
         return desc, "CLI raised " + err
     data = generate_mock_data("CIRCUIT_1", noise=0.1, seed=seed)[0]
-    fit = fit_circuit(parse_cdc(cdc), data=data, method=method, weight=weight, max_nfev=200, num_procs=1)
+    fit = fit_circuit(parse_cdc(cdc), data=data, method=method, weight=weight, max_nfev=nfev, num_procs=1)
+    for _ in range(nref):
+        fit = fit_circuit(fit.circuit, data=data, method=method, weight=weight, max_nfev=nfev, num_procs=1)
     frs = fragments(out)
     if len(frs) < 3:
         return desc, "expected CDC line, parameter table and statistics table, found %d fragments" % len(frs)
